@@ -505,11 +505,13 @@ Lemma live_example :
   is_stw (pc (th (run_stream cfg_fixed rr3 60 (run cfg_fixed live_sched (init_all live_progs))) 0)) = false.
 Proof. vm_compute. auto. Qed.
 
-(* the hypothesis is needed: a thread registered after stop_threads has passed is never flagged, and the
-   stopper stays blocked for as long as that thread runs without entering a safepoint *)
+(* the hypothesis was needed for the tree before 56291059 (spawn_locked = false): a thread registered after
+   stop_threads has passed is never flagged, and the stopper stays blocked for as long as that thread runs without
+   entering a safepoint.  With thread creation under the heap guard no registration falls inside a section
+   (Proofs_C15_Spawn); the termination proof itself has not been extended to scripts that spawn. *)
 Lemma late_registration_delays :
-  let w := run cfg_fixed late_sched (init late_progs) in
+  let w := run cfg_pre_spawn_fix late_sched (init late_progs) in
   pc (th w 2) = Stw (SWait 1 1) /\ reg (th w 1) = true /\ paused (th w 1) = false /\
-  wstep cfg_fixed 2 w = None /\
-  wstep cfg_fixed 2 (run cfg_fixed (repeat 1 20) w) = None /\ prog (th (run cfg_fixed (repeat 1 20) w) 1) <> [].
+  wstep cfg_pre_spawn_fix 2 w = None /\
+  wstep cfg_pre_spawn_fix 2 (run cfg_pre_spawn_fix (repeat 1 20) w) = None /\ prog (th (run cfg_pre_spawn_fix (repeat 1 20) w) 1) <> [].
 Proof. cbv zeta. repeat split; try (vm_compute; reflexivity). vm_compute. discriminate. Qed.
